@@ -20,6 +20,34 @@ JUNK_POOL = [" ", "(", ")", "1", "2", "0", "_", ",", "\t", ".", "-", "+", "*", "
 MODEL_ALPHABET = [chr(c) for c in range(0, 128) if not 0x1C <= c <= 0x1F] + ["≤", "…"]
 
 
+# round 11, B3: the model's white-space characters, and the shapes of SPACED decorations rendered by the driver's
+# Spec.renderSpaced (`c16.spaced`): (label, leading `!`?, prefix words, suffix words); every word is followed (prefix) or
+# preceded (suffix) by 1-4 white-space characters of every kind, `!` by 0-4, and 0-4 surround the whole spelling
+WS = [" ", "\t", "\n", "\r", "\x0b", "\x0c"]
+SPACED_SHAPES = [
+    ("!X", True, [], []), ("not X", False, ["not"], []), ("X not", False, [], ["not"]), ("is X", False, ["is"], []),
+    ("X is", False, [], ["is"]), ("is not X", False, ["is", "not"], []), ("not is X", False, ["not", "is"], []),
+    ("is X not", False, ["is"], ["not"]), ("X is not", False, [], ["is", "not"]), ("! is X", True, ["is"], []),
+    ("! X is", True, [], ["is"]), ("not X not", False, ["not"], ["not"]), ("X", False, [], []),
+]
+
+
+def rand_case(rng, w):
+    return "".join(ch.upper() if rng.random() < 0.3 else ch for ch in w)
+
+
+def rand_ws(rng, lo=1):
+    return "".join(rng.choice(WS) for _ in range(rng.randrange(lo, 5)))
+
+
+def spaced_req(rng, x, shape, fixed=None):
+    """One `c16.spaced` request; `fixed` = a single white-space character used at every position (bounded-exhaustive part)."""
+    _, bang, pre, post = shape
+    g = (lambda lo=1: fixed) if fixed is not None else (lambda lo=1: rand_ws(rng, lo))
+    return {"op": "c16.spaced", "x": x, "outerL": g(0), "outerR": g(0), "bang": g(0) if bang else None,
+            "pre": [[rand_case(rng, w), g()] for w in pre], "post": [[rand_case(rng, w), g()] for w in post]}
+
+
 def real_call(np_mod, cs, s):
     """-> ("ok", key, neg) | ("exc", ExceptionName)"""
     with contextlib.redirect_stderr(io.StringIO()), contextlib.redirect_stdout(io.StringIO()):
@@ -118,6 +146,7 @@ def run(ctx):
                     reqs.append({"op": "c16.render", "key": k, "style": style})
                     meta.append((k, style))
         rendered = drv.batch(reqs)
+        formula_meta, formula_rendered = meta, rendered
         for (k, style), r in zip(meta, rendered):
             assert r["junkOk"] and r["balanced"], (k, style)
             pre, post, neg = rng.choice(decorations)
@@ -153,9 +182,10 @@ def run(ctx):
                     reqs.append({"op": "c16.renderAbbrev", "key": k, "abbrev": a, "style": style})
                     meta.append((a, k, bare, deco))
         rendered = drv.batch(reqs)
+        abbrev_meta, abbrev_rendered = [(a, k, bare, deco) for a, k, bare, deco in meta], rendered
         for (a, k, bare, deco), r in zip(meta, rendered):
             assert r["junkOk"] and r["applies"], (a, k)
-            if deco is None:  # white-space variants of the markers: exercised only (the theorems fix the literal space)
+            if deco is None:  # white-space variants of the markers: theorem-backed since round 11 (C16_abbrev_spaced)
                 pre, post = rng.choice(ws_markers)
                 neg = True
                 stream = "abbreviation×junk×ops×index×case×white-space variants of the negation markers"
@@ -169,6 +199,68 @@ def run(ctx):
             cases.append((stream, s_ab, ("ok", k, neg), False))
             ctx.dist("abbrev:kind=" + a)
             ctx.dist("abbrev:deco=" + repr((pre, post)))
+
+        # 2c. SPACED decorations (round 11, B3; theorems C16_formula_spaced / C16_abbrev_spaced quantify over ALL decoration
+        # texts: any white space, any number of the words `not` / `is` in any case, `!`; C16_names_spaced / _bang for names):
+        # formula spellings, abbreviated spellings and names under every shape of SPACED_SHAPES, the white space next to each
+        # word / marker being 1-4 characters of every model kind (bounded-exhaustive: each single character at every position
+        # of every shape; then random). The text, the admissibility of the decoration, the flag of the property's clause
+        # (Spec.carriesNeg) and the flag the decoration carries by construction (Spaced.neg) all come from the driver.
+        n_sp = 1200 if ctx.tier == "quick" else 60000
+        formula_pool = [(k, r["s"]) for (k, _), r in zip(formula_meta, formula_rendered)]
+        abbrev_pool = [(k, r["s"]) for (_, k, _, _), r in zip(abbrev_meta, abbrev_rendered)]
+        name_pool = []
+        for n, k in aliases:
+            for m in ([], [True] * len(n), [rng.random() < 0.5 for _ in n]):
+                name_pool.append((n, k, drv.call("c16.renderName", name=n, mask=m)["s"]))
+        reqs, meta = [], []
+        for shape in SPACED_SHAPES:
+            for c in WS:  # bounded-exhaustive: one character of each kind at every position of the shape
+                for kind, (k, x) in (("formula", formula_pool[0]), ("formula", rng.choice(formula_pool)),
+                                     ("abbrev", abbrev_pool[0]), ("abbrev", rng.choice(abbrev_pool))):
+                    reqs.append(spaced_req(rng, x, shape, fixed=c))
+                    meta.append((kind, k, None, shape, "bx"))
+                for n, k, x in (name_pool[0], rng.choice(name_pool)):
+                    reqs.append(spaced_req(rng, x, shape, fixed=c))
+                    meta.append(("name", k, n, shape, "bx"))
+        for _ in range(n_sp):
+            shape = rng.choice(SPACED_SHAPES)
+            k, x = rng.choice(formula_pool)
+            reqs.append(spaced_req(rng, x, shape))
+            meta.append(("formula", k, None, shape, "random"))
+        for _ in range(n_sp // 2):
+            shape = rng.choice(SPACED_SHAPES)
+            k, x = rng.choice(abbrev_pool)
+            reqs.append(spaced_req(rng, x, shape))
+            meta.append(("abbrev", k, None, shape, "random"))
+        for _ in range(n_sp // 2):
+            shape = rng.choice(SPACED_SHAPES)
+            n, k, x = rng.choice(name_pool)
+            reqs.append(spaced_req(rng, x, shape))
+            meta.append(("name", k, n, shape, "random"))
+        for (kind, k, n, shape, how), q, r in zip(meta, reqs, drv.batch(reqs)):
+            assert r["ok"] and r["decoOk"], q
+            s_sp = r["s"]
+            if r["carries"] is not r["neg"]:  # the clause of the property on the text IS the flag the decoration carries (spaced_flag)
+                ctx.broken.append("spec:Spaced.neg ≠ carriesNeg")
+                ctx.notes.append({"spec-flag-disagreement": s_sp, "neg": r["neg"], "carries": r["carries"]})
+            if stated_negation(s_sp) is not None and stated_negation(s_sp) is not r["carries"]:
+                ctx.broken.append("spec:carriesNeg ≠ stated negation")
+                ctx.notes.append({"spec-flag-disagreement": s_sp, "stated": stated_negation(s_sp), "carries": r["carries"]})
+            ctx.dist("spaced:shape=" + shape[0])
+            for c in set("".join([q["outerL"], q["outerR"], q["bang"] or ""] + [w[1] for w in q["pre"] + q["post"]])):
+                ctx.dist("spaced:ws=" + repr(c))
+            if kind in ("formula", "abbrev"):
+                stream = ("formula" if kind == "formula" else "abbreviation") + "×junk×ops×index×case×SPACED decoration (any white space)"
+                cases.append((stream, s_sp, ("ok", k, r["carries"]), False))
+            else:
+                # names: the code tolerates extra white space only AFTER the literal space of `not `, BEFORE the one of ` not`
+                # and after `!` (C16_names_spaced, _suffix, _bang); every other spaced name is compared with the model only
+                # (C16_names_spaced_limits: `not\tafter`, `is  after` … are ValueErrors — finding B3)
+                backed = ((shape[0] == "!X") or (shape[0] == "not X" and q["pre"][0][1].startswith(" "))
+                          or (shape[0] == "X not" and q["post"][0][1].endswith(" ")))  # C16_names_spaced_suffix
+                stream = "names×case×SPACED decoration (" + ("theorem-backed" if backed else "differential only") + ")"
+                cases.append((stream, s_sp, ("ok", k, True) if backed else None, False))
 
         # 3. arbitrary strings over the model alphabet, and mutated spellings
         n_arb = 4000 if ctx.tier == "quick" else 400000
@@ -204,6 +296,10 @@ def run(ctx):
             "abbreviated spellings: the 60 (abbreviation, key) pairs of Spec.abbrevPairs (58 single-letter forms, x=y, y=x) × the 18 "
             "decorations (+ white-space variants of the markers) × random junk/indices/case/operator styles rendered by the driver's "
             "Spec.renderAbbrev; "
+            "SPACED decorations (round 11): formula spellings, abbreviated spellings and names under 13 shapes of decoration (`!`, "
+            "`not`, `is` and their combinations, prefix and suffix) rendered by the driver's Spec.renderSpaced, the white space next to "
+            "each word / marker being each single model white-space character (space, tab, LF, CR, VT, FF) at every position, then 1-4 "
+            "random ones; expected key and flag (Spec.carriesNeg) from the driver; "
             "arbitrary stream: random and mutated strings over the model alphabet. A case is non-trivial when it is not a bare "
             "canonical key (some rewriting, decoration or junk applied); distinct = distinct strings."
         )
@@ -288,14 +384,28 @@ def run(ctx):
         "C16_abbrev_formula / _bang / _not_prefix / _not_suffix / _is_prefix / _is_suffix / _is_not / _is_prefix_not_suffix / "
         "_is_not_suffix / _not_is / _bang_is / _bang_is_suffix / _decorated (every abbreviated spelling of every key that has one: "
         "unbounded junk, either case, index digits, `<=`/`==`, any case of `not`/`is`, any outer whitespace)",
+        "C16_formula_spaced / C16_abbrev_spaced (round 11, B3: every formula / abbreviated spelling between ANY two decoration texts — "
+        "strings over the model's white space, `!` and the letters of `not` / `is` in either case, unbounded: any white space of any "
+        "length next to each word or marker, any number of words — resolves to its key and is negated exactly when the stripped "
+        "lower-cased text starts with `!`, carries `not`+white space or white space+`not` (Spec.carriesNeg))",
+        "C16_formula_spaced_render / C16_abbrev_spaced_render (every admissible Spaced decoration — outer white space, optional `!` + any "
+        "white space, any number of prefix words each followed by an arbitrary non-empty white-space string, suffix words each preceded "
+        "by one — around every formula / abbreviated spelling: the key, and the flag Spaced.neg the decoration carries by construction: "
+        "`!`, a prefix `not<ws>` or a suffix `<ws>not`); C16_formula_spaced_not_prefix / _not_suffix / _is_prefix / _is_suffix (the "
+        "single-space theorems with ANY non-empty white-space string next to the word)",
+        "C16_names_spaced / C16_names_spaced_suffix / C16_names_spaced_bang (19 names, every case: any white space after the literal "
+        "space of `not `, before the literal space of a trailing ` not`, and after `!`); "
+        "C16_names_spaced_limits (kernel-checked witnesses of what the code rejects around names: `not\\tafter`, `after\\tnot`, "
+        "`is  after`, `after  is` are ValueErrors, while the same decorations are accepted around `x<y`)",
         "C16_name_case / C16_name_mask (19 names, every case mask, any outer whitespace)",
         "C16_name_decorated (19 names x 12 lower-case decorations, every case of every letter, any outer whitespace)",
         "C16_name_spec_decorated (19 names x the 18 decorations of Spec.NP.decorations x every case mask)",
     ]
     ctx.cov["exercised_only"] = [
-        "decorated NAME spellings with extra whitespace between the decoration word and the name (e.g. `not   after`), and "
-        "whitespace other than the single literal space next to `not`/`is` (e.g. `not\\tx<...`, also around abbreviated spellings): "
-        "differential run only, not a theorem",
+        "spaced NAME spellings outside C16_names_spaced / _suffix / _bang: combinations with `is` (`is not  after`: accepted) are "
+        "compared with the model only; the spaced NAME spellings the code rejects (any white space other than the literal space next to "
+        "`not`, more than the single space next to `is`: ValueError in code and model alike, witnesses in C16_names_spaced_limits — "
+        "finding B3, reported, not a violation of a theorem)",
         "Unicode beyond the model alphabet (implementation-only stream: no exception other than ValueError)",
     ]
     ctx.assumptions += ["model alphabet: ASCII 0x09-0x0D, 0x20-0x7E, '≤', '…'"]
